@@ -150,7 +150,10 @@ def parse(
                     # If there's no condition, it's an infinite loop
                     condition = [lexer.Token(lexer.TokenType.NUMBER, "1")]
                 else:
-                    condition = parse(branches[0], structure_cls)
+                    # the condition runs outside the loop body (before the
+                    # loop and at the end of each iteration), so break and
+                    # continue have no loop to act on there
+                    condition = parse(branches[0], None)
                 structures.append(
                     structure.WhileLoop(
                         condition, parse(branches[-1], structure_cls)
